@@ -1,6 +1,6 @@
 (* Props/C10.v - Every initialised session is closed exactly once; every connection is released. *)
 From Coq Require Import List Arith NArith Lia Bool.
-From MM Require Import Lib.Bytes Model.Conn Proofs.ConnInv Proofs.C10Proofs Gen.FactsConn Proofs.FuelProofs.
+From MM Require Import Lib.Bytes Model.Conn Proofs.ConnInv Proofs.C10Proofs Gen.FactsConn Gen.FactsControl Proofs.FuelProofs.
 Import ListNotations.
 Open Scope N_scope.
 
@@ -13,7 +13,9 @@ Theorem c10_source_shape :
   connection_connection_kill_ok = true /\ connection_connection_command_phase_ok = true /\
   connection_connection_connection_phase_ok = true /\ connection_connection_authenticate_ok = true /\
   connection_connection_handle_change_user_ok = true /\
-  server_mysqlserver_client_connected_cb_ok = true /\ stream_mysqlstream_drain_ok = true.
+  server_mysqlserver_client_connected_cb_ok = true /\ stream_mysqlstream_drain_ok = true /\
+  (* the registry a kill travels through and the connection is released from *)
+  control_add_remove_kill_ok = true /\ server_cb_finally_ok = true.
 Proof. repeat split; reflexivity. Qed.
 
 (* For EVERY list of events - commands, disconnects (clean, mid-packet, bad sequence id), socket failures,
